@@ -432,6 +432,7 @@ func checkC07(c *Ctx) {
 			cw.ce.Close()
 		}
 	}
+	c07TwoRounds(c)
 	// sampled part
 	cfgs := []ntCase{{2, 2}, {3, 3}, {4, 2}, {4, 3}, {5, 3}}
 	per := c.Pick(12, 400)
@@ -522,4 +523,89 @@ func c07BatchData(k int) map[string][]byte {
 		d[fmt.Sprintf("doc-%d-empty", k)] = []byte{}
 	}
 	return d
+}
+
+// c07TwoRounds: the same nodes hold two completed rounds (different thresholds, hence different group
+// keys) and sign batches in both, interleaved, without restarting in between: every batch answered by t
+// honest participants of its round is reconstructed under that round's key.
+func c07TwoRounds(c *Ctx) {
+	reps := c.Pick(3, 24)
+	Parallel(reps, 6, func(rep int) {
+		seed := c.Seed*181 + uint64(rep)
+		r := sched.Derive(seed, 77)
+		n := 3 + rep%2
+		ts := [2]int{2, 2 + rep%2}
+		if rep%3 == 2 {
+			ts[1] = n
+		}
+		w, err := world.NewWorld(world.Options{N: n, T: ts[0], Seed: seed, ViaHTTP: rep%2 == 1})
+		if err != nil {
+			c.Inconclusive("two-round world: %v", err)
+			return
+		}
+		var ces [2]*Ceremony
+		defer w.Close()
+		for k := 0; k < 2; k++ {
+			id, err := w.StartDKG(r.Intn(n), ts[k], now().Add(time.Duration(k)*time.Second))
+			if err != nil {
+				c.Inconclusive("two-round world: start %d: %v", k, err)
+				return
+			}
+			ces[k] = &Ceremony{W: w, N: n, T: ts[k], Round: id}
+			if k == 0 && rep%2 == 0 {
+				w.Run(world.RandomPolicy, 6000) // sequential key generations; otherwise concurrent
+			}
+		}
+		w.Run(world.RandomPolicy, 8000)
+		var keys [2][]byte
+		for k := 0; k < 2; k++ {
+			if !ces[k].AllIn(StIdle) {
+				c.Inconclusive("two-round world: round %d ended %v", k, ces[k].States())
+				return
+			}
+			if keys[k], _, err = ces[k].GroupKeyFromMachines(); err != nil {
+				c.Inconclusive("two-round world: %v", err)
+				return
+			}
+		}
+		var order []int
+		for i := 0; i < 5; i++ {
+			order = append(order, r.Intn(2))
+		}
+		order = append(order, 0, 1)
+		wit := map[string]interface{}{"family": "two rounds on the same nodes", "n": n, "thresholds": ts, "batch_order_by_round": order, "case_seed": seed}
+		for bi, k := range order {
+			ce := ces[k]
+			subsets := sched.Subsets(n, ce.T)
+			set := subsets[r.Intn(len(subsets))]
+			prop, err := ce.RunBatch(BatchSpec{Proposer: r.Intn(n), Signers: set, NoLate: r.Intn(2) == 0, Data: map[string][]byte{fmt.Sprintf("doc-%d", bi): []byte(fmt.Sprintf("round %d batch %d", k, bi))}}, world.RandomPolicy)
+			c.Eval(1)
+			c.Add("batches_in_two_round_worlds", 1)
+			c.Distinct(fmt.Sprintf("two-rounds|n%d|t%v|%v|%d", n, ts, order, bi))
+			if err != nil || prop == nil {
+				c.Violate("C07/schedule-cannot-proceed", fmt.Sprintf("batch %d (round %d of two on the same nodes): %v", bi, k, err), wit)
+				return
+			}
+			bid, msgs, _ := ExpandProposal(prop.Data)
+			for _, nd := range w.Nodes {
+				if st := NodeState(nd, ce.Round); st != StIdle {
+					c.Violate("C07/node-not-idle-at-quiescence", fmt.Sprintf("%s ends in %s after batch %d of round %d", nd.Name, st, bi, k), wit)
+					return
+				}
+				store := SigStore(nd, ce.Round)
+				for _, m := range msgs {
+					valid := false
+					for _, e := range store[bid][m.ID] {
+						if ok, _ := oracle.VerifyG2(keys[k], m.Payload, e.Signature); ok && len(e.Signature) > 0 {
+							valid = true
+						}
+					}
+					if !valid {
+						c.Violate("C07/batch-with-t-answers-not-reconstructed", fmt.Sprintf("%s holds no valid signature for batch %d (round %d of two on the same nodes, %d answers, t=%d)", nd.Name, bi, k, len(set), ce.T), wit)
+						return
+					}
+				}
+			}
+		}
+	})
 }
